@@ -527,9 +527,12 @@ def make_call_capture(node, fn, names, _, context):
 def make_sequence(node, a, b, context):
     a = evaluate(a, context=context)
     b = evaluate(b, context=context)
+    # (either side may be a parenthesised sequence)
+    if not isinstance(a, list):
+        a = [a]
     if not isinstance(b, list):
         b = [b]
-    return [a, *b]
+    return [*a, *b]
 
 
 @evaluate.register_action("X as X")
